@@ -215,7 +215,7 @@ def main(tier: str, seed: int, replay: str | None = None) -> int:
         ]
     cc.drive(run, cases, timeouts, cc.judge_c03, on_ok(run))
     for c, m in (
-        ('target_distance_checked', 8 if tier == 'quick' else 40),
+        ('target_distance_checked', 8 if tier == 'quick' else 30),
         ('target_unitary', 3), ('target_state', 1), ('target_system', 1),
         ('list_checked', 1), ('compile_L1', 1), ('compile_L2', 1),
     ):
